@@ -385,6 +385,90 @@ def tok(data, urls, old) -> str:
     return "raw:" + data[:60].hex()
 
 
+ARFF = b"""@relation tiny
+@attribute date numeric
+@attribute day {1,2,3}
+@attribute price numeric
+@attribute class {UP,DOWN}
+@data
+0.0,2,0.056443,UP
+0.1,3,0.051699,UP
+0.2,1,0.385004,DOWN
+0.9158,2,0.288753,DOWN
+"""
+
+
+def elec2_cases(out: Outcome) -> None:
+    """the real dataset class end to end on a scripted network: default (temporary) target files are per object, a single URL string is one
+    mirror, `load()` returns the parsed records (all of them, in order) and removes the file, a bad index is a ReadFileError and keeps the file"""
+    from frouros.datasets.exceptions import ReadFileError
+    real_head, real_get = requests.head, requests.get
+    try:
+        served = {}
+
+        def head(url, timeout=None, **kw):
+            return FakeResponse(ok=True)
+
+        def get(url, stream=None, timeout=None, **kw):
+            return FakeResponse(ok=True, content=served[url])
+
+        requests.head, requests.get = head, get
+        a, b = Elec2(), Elec2()
+        rep = {"scenario": "two Elec2 objects with default file_path"}
+        if a.file_path is None or b.file_path is None or str(a.file_path) == str(b.file_path):
+            out.violation(f"Elec2: two objects created with the default file_path share the target {a.file_path}", rep)
+        else:
+            for u in a.url:
+                served[u] = ARFF
+            a.download()
+            for u in b.url:
+                served[u] = ARFF.replace(b"0.9158,2,0.288753,DOWN\n", b"")
+            b.download()
+            da, db = a.load(), b.load()
+            if len(da) != 4 or len(db) != 3:
+                out.violation(f"Elec2: two objects with default targets: {len(da)} and {len(db)} records loaded, expected 4 and 3 (each its own download)", rep)
+            elif [float(r[0]) for r in da] != [0.0, 0.1, 0.2, 0.9158] or [bytes(r[3]) for r in da] != [b"UP", b"UP", b"DOWN", b"DOWN"]:
+                out.violation(f"Elec2.load(): parsed records {da!r} are not the records of the downloaded file, in order", rep)
+            if a.file_path is not None or b.file_path is not None:
+                out.violation("Elec2.load(): the temporary file path is kept after load()", rep)
+        out.case(rep)
+        # a bad index: ReadFileError, file kept
+        c = Elec2()
+        for u in c.url:
+            served[u] = ARFF
+        c.download()
+        path = str(c.file_path)
+        try:
+            c.load(index=2)
+            out.violation("Elec2.load(index=2) returned something instead of raising ReadFileError", {"scenario": "bad index"})
+        except ReadFileError:
+            if not os.path.exists(path):
+                out.violation("Elec2.load(index=2): ReadFileError but the downloaded file is gone", {"scenario": "bad index"})
+        except Exception as e:  # noqa: BLE001
+            out.violation(f"Elec2.load(index=2) raised {type(e).__name__} instead of ReadFileError", {"scenario": "bad index"})
+        if os.path.exists(path):
+            os.unlink(path)
+        out.case({"scenario": "bad index"})
+        # a single URL given as a string is one mirror
+        fd, path = tempfile.mkstemp(dir="/tmp")
+        os.close(fd)
+        url = "https://single.example.org/data.bin"
+        served[url] = b"SINGLE"
+        ds = ThreeMirrors(url=url, file_path=path)
+        rep = {"scenario": "url given as str"}
+        try:
+            ds.download()
+            if open(path, "rb").read() != b"SINGLE":
+                out.violation("download() with a single URL string: the target file does not hold that URL's bytes", rep)
+        except Exception as e:  # noqa: BLE001
+            out.violation(f"download() with a single URL string raised {type(e).__name__}: {e}", rep)
+        if os.path.exists(path):
+            os.unlink(path)
+        out.case(rep)
+    finally:
+        requests.head, requests.get = real_head, real_get
+
+
 def run(out: Outcome) -> None:
     rng = rng_for(out.seed, "C20")
     thorough = out.tier == "thorough"
@@ -395,6 +479,7 @@ def run(out: Outcome) -> None:
     sea_cases(out, rng, 60 if thorough else 15, lines, expect)
     download_cases(out, lines, expect, 3)
     history_cases(out, rng, lines, expect, 400 if thorough else 80)
+    elec2_cases(out)
     out.stats["download_assignments_exhaustive"] = True
     got = run_driver(lines)
     for g, (want, rep) in zip(got, expect):
